@@ -9,7 +9,6 @@ package main
 // the *exec.Cmd returned by Transport.Command is recorded as well.
 
 import (
-	"bufio"
 	"fmt"
 	"os"
 	"path/filepath"
@@ -25,16 +24,34 @@ import (
 	"verif/harness/internal/vlib"
 )
 
-// canonical token order of spec/text/Argv_Trace.tla (TokOrder)
-var c36Tokens = []string{"-", "a", "@", ":", "/", "o", "="}
+// canonical token order of spec/text/Argv_Trace.tla (TokOrder); TAB and LF
+// are written by name in every recorded string and character sequence
+var c36Tokens = []string{"-", "a", "@", "/", " ", "TAB", "LF", "o"} // quick uses the first 7
 
-var c36Random = []string{"-", "--", "-o", "-oProxyCommand=x", "ProxyCommand", "=", "a", "b", "root", "host", "example.com", "@", "-l",
+func c36Text(toks []string) string {
+	var sb strings.Builder
+	for _, t := range toks {
+		switch t {
+		case "TAB":
+			sb.WriteByte('\t')
+		case "LF":
+			sb.WriteByte('\n')
+		default:
+			sb.WriteString(t)
+		}
+	}
+	return sb.String()
+}
+
+// random components are sequences of these pieces (white space as its own piece, by name)
+var c36Random = []string{" ", "TAB", "LF", " ", "-", "--", "-o", "-oProxyCommand=x", "ProxyCommand", "=", "a", "b", "root", "host", "example.com", "@", "-l",
 	"-p", "22", "--help", "--user", "--privileged", "-it", "-v", "/", ".", "_", "c1", "-c", "-F", "-J", "x"}
 
 const c36Fake = `#!/bin/sh
 # recording fake ssh / scp / docker: one line per argument, then the answers the
 # Docker transport's container probing needs
-{ printf 'P%s\n' "$0"; for a in "$@"; do printf 'A%s\n' "$a"; done; printf 'E\n'; } >> "$VERIF_ARGV_LOG"
+# (every argument as "A<length>" + newline + the argument + newline, so that arguments may contain newlines)
+{ printf 'P%s\n' "$0"; for a in "$@"; do printf 'A%d\n%s\n' "${#a}" "$a"; done; printf 'E\n'; } >> "$VERIF_ARGV_LOG"
 u=root; p=
 for a in "$@"; do if [ "$p" = "--user" ]; then u=$a; fi; p=$a; done
 case "$*" in
@@ -80,19 +97,38 @@ func c36Setup(c *vlib.Ctx) *c36Env {
 	return e
 }
 
+// chars renders text character by character; TAB and LF by name.
 func chars(s string) []any {
 	out := make([]any, len(s))
 	for i := 0; i < len(s); i++ {
-		out[i] = string(s[i : i+1])
+		switch c := s[i]; {
+		case c == '\t':
+			out[i] = "TAB"
+		case c == '\n':
+			out[i] = "LF"
+		case c >= 0x20 && c <= 0x7e:
+			out[i] = string(rune(c))
+		default:
+			out[i] = fmt.Sprintf("x%02x", c)
+		}
 	}
 	return out
+}
+
+// encStr is the string form of chars (the same naming of TAB and LF).
+func encStr(s string) string {
+	var sb strings.Builder
+	for _, c := range chars(s) {
+		sb.WriteString(c.(string))
+	}
+	return sb.String()
 }
 
 func encCmd(prog, via string, args []string) map[string]any {
 	av := make([]any, len(args))
 	ac := make([]any, len(args))
 	for i, a := range args {
-		av[i] = a
+		av[i] = encStr(a)
 		ac[i] = chars(a)
 	}
 	return map[string]any{"prog": prog, "via": via, "argv": av, "argvc": ac}
@@ -100,33 +136,40 @@ func encCmd(prog, via string, args []string) map[string]any {
 
 // drainLog returns the invocations the fakes appended since the last call.
 func (e *c36Env) drainLog() []map[string]any {
-	f, err := os.Open(e.log)
+	data, err := os.ReadFile(e.log)
 	if err != nil {
 		return nil
 	}
 	var out []map[string]any
 	var prog string
 	var args []string
-	sc := bufio.NewScanner(f)
-	sc.Buffer(make([]byte, 1<<16), 1<<22)
-	for sc.Scan() {
-		line := sc.Text()
+	for pos := 0; pos < len(data); {
+		nl := strings.IndexByte(string(data[pos:]), '\n')
+		if nl < 0 {
+			break
+		}
+		line := string(data[pos : pos+nl])
+		pos += nl + 1
 		switch {
 		case strings.HasPrefix(line, "P"):
 			prog = filepath.Base(line[1:])
 			args = []string{}
 		case strings.HasPrefix(line, "A"):
-			args = append(args, line[1:])
+			n, err := strconv.Atoi(line[1:])
+			if err != nil || pos+n > len(data) {
+				vlib.Fatal("malformed fake log")
+			}
+			args = append(args, string(data[pos:pos+n]))
+			pos += n + 1
 		case line == "E":
 			out = append(out, encCmd(prog, "fake", args))
 		}
 	}
-	f.Close()
 	os.Truncate(e.log, 0)
 	return out
 }
 
-func c36In(dom, form string, user, host []string, spawn bool) map[string]any {
+func c36In(dom, route, form string, user, host []string, spawn bool) map[string]any {
 	var sb strings.Builder
 	if form == "docker" {
 		sb.WriteString("docker://")
@@ -149,20 +192,50 @@ func c36In(dom, form string, user, host []string, spawn bool) map[string]any {
 	for i, t := range host {
 		h[i] = t
 	}
-	return map[string]any{"dom": dom, "form": form, "user": u, "host": h, "s": sb.String(), "spawn": spawn}
+	// s: the URL string in the recorded naming (TAB, LF by name); only used on the parse route
+	return map[string]any{"dom": dom, "route": route, "form": form, "user": u, "host": h, "s": sb.String(), "spawn": spawn}
+}
+
+// c36Message produces the URL message of the case: parsed from the URL string
+// or built directly, as a client other than the mutagen command line could
+// send it to the daemon.
+func c36Message(in map[string]any) (*url.URL, error) {
+	var user, host []string
+	vlib.Decode(in["user"], &user)
+	vlib.Decode(in["host"], &host)
+	form, _ := in["form"].(string)
+	if in["route"] == "raw" {
+		u := &url.URL{Kind: url.Kind_Synchronization, Protocol: url.Protocol_SSH, User: c36Text(user), Host: c36Text(host), Path: "p"}
+		if form == "docker" {
+			u.Protocol, u.Path, u.Environment = url.Protocol_Docker, "/p", map[string]string{}
+		}
+		return u, nil
+	}
+	raw := c36Text(host) + ":p"
+	if form == "docker" {
+		raw = c36Text(host) + "/p"
+	}
+	if len(user) > 0 {
+		raw = c36Text(user) + "@" + raw
+	}
+	if form == "docker" {
+		raw = "docker://" + raw
+	}
+	return url.Parse(raw, url.Kind_Synchronization, true)
 }
 
 func c36Case(c *vlib.Ctx, e *c36Env, in map[string]any) map[string]any {
-	s := in["s"].(string)
+	s := fmt.Sprint(in["route"], "|", in["s"])
 	spawn, _ := in["spawn"].(bool)
 	rec := map[string]any{"ev": "Argv", "in": in, "accepted": false, "perr": "", "verr": "", "url": map[string]any{},
-		"x": map[string]any{"cmd": c36Cmd, "src": filepath.Base(e.local), "remote": c36Remote, "home": c36Home, "local": e.local}}
+		"x": map[string]any{"cmd": c36Cmd, "words": toksAny(strings.Split(c36Cmd, " ")), "src": filepath.Base(e.local),
+			"remote": c36Remote, "home": c36Home, "local": e.local}}
 	cmds := []any{}
 	errs := []any{}
 	done := make(chan struct{})
 	go func() {
 		defer close(done)
-		u, err := url.Parse(s, url.Kind_Synchronization, true)
+		u, err := c36Message(in)
 		if err != nil {
 			rec["perr"] = ascii(err.Error())
 			return
@@ -172,7 +245,9 @@ func c36Case(c *vlib.Ctx, e *c36Env, in map[string]any) map[string]any {
 			return
 		}
 		rec["accepted"] = true
-		rec["url"] = encURL(u)
+		eu := encURL(u)
+		eu["user"], eu["host"], eu["path"] = encStr(u.User), encStr(u.Host), encStr(u.Path)
+		rec["url"] = eu
 		var t agent.Transport
 		switch u.Protocol {
 		case url.Protocol_SSH:
@@ -244,41 +319,44 @@ func runC36(c *vlib.Ctx) error {
 	e := c36Setup(c)
 	boxes := map[string][4]int{"ssh": parseBox(c, "ssh", [4]int{1, 3, 3, 1}), "docker": parseBox(c, "docker", [4]int{1, 1, 0, 2})}
 	sshSpawn := argInt(c, "sshspawn", 1)   // ssh: run the command and Copy when both components are at most this long
-	dockerCopy := argInt(c, "dockercopy", 1) // docker: Copy when both components are at most this long
+	dockerCopy := argInt(c, "dockercopy", 1) // docker: Copy when there is no user and the container is at most this long
 	nrand := argInt(c, "rand", 60)
 	toInts := func(b [4]int) []any { return []any{b[0], b[1], b[2], b[3]} }
 	c.Emit(map[string]any{"ev": "Bound", "ssh": toInts(boxes["ssh"]), "docker": toInts(boxes["docker"])})
 	n := 0
-	for _, form := range []string{"ssh", "docker"} {
-		b := boxes[form]
-		maxU, maxH := max(b[0], b[2]), max(b[1], b[3])
-		forEachSeq(len(c36Tokens), maxU, func(ui []int) {
-			user := make([]string, len(ui))
-			for i, k := range ui {
-				user[i] = c36Tokens[k]
-			}
-			forEachSeq(len(c36Tokens), maxH, func(hi []int) {
-				if !inBox(b, len(ui), len(hi)) {
-					return
+	c36Tokens := c36Tokens[:argInt(c, "ntok", 7)]
+	for _, route := range []string{"parse", "raw"} {
+		for _, form := range []string{"ssh", "docker"} {
+			b := boxes[form]
+			maxU, maxH := max(b[0], b[2]), max(b[1], b[3])
+			forEachSeq(len(c36Tokens), maxU, func(ui []int) {
+				user := make([]string, len(ui))
+				for i, k := range ui {
+					user[i] = c36Tokens[k]
 				}
-				host := make([]string, len(hi))
-				for i, k := range hi {
-					host[i] = c36Tokens[k]
-				}
-				spawn := false
-				if form == "ssh" {
-					spawn = len(ui) <= sshSpawn && len(hi) <= sshSpawn
-				} else {
-					spawn = len(ui) <= dockerCopy && len(hi) <= dockerCopy
-				}
-				rec := c36Case(c, e, c36In("box", form, user, host, spawn))
-				c.Emit(rec)
-				if n%1499 == 3 {
-					c.Sample(rec)
-				}
-				n++
+				forEachSeq(len(c36Tokens), maxH, func(hi []int) {
+					if !inBox(b, len(ui), len(hi)) {
+						return
+					}
+					host := make([]string, len(hi))
+					for i, k := range hi {
+						host[i] = c36Tokens[k]
+					}
+					spawn := false
+					if form == "ssh" {
+						spawn = len(ui) <= sshSpawn && len(hi) <= sshSpawn
+					} else {
+						spawn = len(ui) == 0 && len(hi) <= dockerCopy
+					}
+					rec := c36Case(c, e, c36In("box", route, form, user, host, spawn))
+					c.Emit(rec)
+					if n%4999 == 3 {
+						c.Sample(rec)
+					}
+					n++
+				})
 			})
-		})
+		}
 	}
 	c.SetExhaustive(true)
 	c.SetExtra("domain_cases", n)
@@ -292,11 +370,11 @@ func runC36(c *vlib.Ctx) error {
 			}
 			return out
 		}
-		host := pick(2)
+		host := pick(3)
 		if len(host) == 0 {
 			host = []string{"h"}
 		}
-		rec := c36Case(c, e, c36In("none", form, pick(2), host, true))
+		rec := c36Case(c, e, c36In("none", []string{"parse", "raw"}[c.Rand.Intn(2)], form, pick(3), host, true))
 		c.Emit(rec)
 		if i == 5 {
 			c.Sample(rec)
@@ -314,8 +392,8 @@ func replayC36(c *vlib.Ctx, begin map[string]any) error {
 	if in == nil {
 		return fmt.Errorf("replay record has no input")
 	}
-	if _, ok := in["s"].(string); !ok {
-		return fmt.Errorf("replay input has no URL string")
+	if in["route"] != "parse" && in["route"] != "raw" {
+		return fmt.Errorf("replay input has no route")
 	}
 	e := c36Setup(c)
 	c.Emit(c36Case(c, e, in))
